@@ -53,7 +53,7 @@ def sender_cfg(rng, role, pmce):
     if role == "client" and rng.random() < 0.1:
         c["mc"] = 0
     if pmce:
-        c["pmce"] = 1
+        c["pmce"] = pmce
     return c
 
 
@@ -69,19 +69,24 @@ def receiver_cfg(scfg):
         if scfg.get("mc") == 0:
             r["rm"] = 0
     if scfg.get("pmce"):
-        r["pmce"] = 1
+        r["pmce"] = scfg["pmce"]
     return r
 
 
 def gen_sender(ctx, i):
     rng = ctx.rng
     role = rng.choice(["client", "server"])
-    pmce = rng.random() < 0.15
+    pmce = rng.choice([1, 2, 3]) if rng.random() < 0.2 else 0
     cfg = sender_cfg(rng, role, pmce)
     ops = wsgen.api_ops(rng, n=rng.randrange(1, 7), valid_only=True)
     if pmce:
-        # streaming/frame API + compression is exercised by C12; keep the message/prepared API here
+        # streaming/frame API + compression is exercised by C12; keep the message/prepared API here.  Messages share
+        # content (later ones repeat earlier ones far back) so that context takeover and window sizes matter.
         ops = [o for o in ops if o.split(",")[0] in ("msg", "prep", "adv", "ping", "pong")]
+        base = rng.randbytes(700)
+        for k in range(rng.randrange(2, 5)):
+            pl = base[:rng.randrange(300, 700)] + rng.randbytes(rng.choice([0, 600, 5000])) + base
+            ops.append(f"msg,{wsgen.hx(pl)},1,{rng.choice(['n', 'n', 100, 1000])},0")
     big = (i % 25 == 0) if ctx.tier == "quick" else (i % 8 == 0)
     if big:
         n = rng.choice(wsgen.BIG_LENS + ([1 << 20, (1 << 24) + 1] if ctx.tier == "thorough" and i % 64 == 0 else []))
